@@ -37,7 +37,7 @@ from .._dns import (
     DNSService,
     DNSText,
 )
-from .._exceptions import BadTypeInNameException
+from .._exceptions import BadTypeInNameException, NamePartTooLongException
 from .._history import QuestionHistory
 from .._logger import log
 from .._protocol.outgoing import DNSOutgoing
@@ -857,7 +857,12 @@ class ServiceInfo(RecordUpdateListener):
                         # but keep waiting for answers in case another
                         # client on the network is asking the same
                         # question or they have not arrived yet.
-                        zc.async_send(out, addr, port)
+                        try:
+                            zc.async_send(out, addr, port)
+                        except NamePartTooLongException:
+                            # A cached known answer whose name arrived with invalid
+                            # UTF-8 cannot always be written again.
+                            log.debug("Dropping query %r: a known answer cannot be encoded", out)
                     next_ = now + delay
                     next_ += self._get_random_delay()
                     if this_question_type is QM_QUESTION and delay < _DUPLICATE_QUESTION_INTERVAL:
